@@ -218,6 +218,13 @@ def mk_bin(op, ty, a, b):
                         x, sft = sh[3][4], sh[4][2]
                         if hi[3][4] == mk_bin("lshr", "i64", x, C(64, 64 - sft)):
                             return sh
+            # the same with the high word written as a shift of the zero-extended value: (zext64(x) >> (64 - s)) << 64
+            if lo[0] == "op" and lo[1] == "and" and hi[0] == "op" and hi[1] == "shl" and hi[4] == C(128, 64) \
+                    and hi[3][0] == "op" and hi[3][1] == "lshr" and is_c(hi[3][4]) and hi[3][3][0] == "cast" and hi[3][3][1] == "zext" and hi[3][3][2] == "i64":
+                for msk, sh in ((lo[3], lo[4]), (lo[4], lo[3])):
+                    if is_c(msk) and sh[0] == "op" and sh[1] == "shl" and is_c(sh[4]) and 0 < sh[4][2] < 64 and msk[2] == (1 << 64) - (1 << sh[4][2]) \
+                            and sh[3] == hi[3][3] and hi[3][4][2] == 64 - sh[4][2]:
+                        return sh
         for lo, hi in ((a, b), (b, a)):
             if lo[0] == "cast" and lo[1] == "zext" and lo[2] == "i64" and hi[0] == "op" and hi[1] == "shl" and hi[4] == C(128, 64) \
                     and hi[3][0] == "cast" and hi[3][1] == "zext" and hi[3][2] == "i64":
